@@ -286,7 +286,8 @@ def patch_dict(paths):
         cur = d
         for k in p[:-1]:
             cur = cur.setdefault(k, {})
-        cur[p[-1]] = 'P:' + '/'.join(p)
+        if p[-1] != '{}':                     # a path ending in "{}": an empty dictionary at that place
+            cur[p[-1]] = 'P:' + '/'.join(p)
     return d
 
 
@@ -464,6 +465,9 @@ def _one_load(rp, data, L, scn, kinds, nest=None):
     """Executed on the thread that performs the load; returns the obs record of that load."""
     paths = L['patch']
     truncated = False
+    noclass = L['fail'] == 'noclass'
+    if noclass:                                   # a stream naming a class that cannot be imported
+        data = b'cvf_no_such_module_xyz\nNoSuchClass\n.'
     if L['fail'] == 'trunc':
         c = L.get('_cut')
         if c is not None:
@@ -486,7 +490,11 @@ def _one_load(rp, data, L, scn, kinds, nest=None):
             _CTL.hook = None
             mine = [ev for ev in LOG[start:]] if nest is None else None
     except BaseException as e:  # noqa
+        if noclass and isinstance(e, (ImportError, AttributeError)):
+            return {'outcome': 'raised:injected', 'top': 'none', 'nodes': [], 'ss': []}
         return {'outcome': _outcome(e, truncated), 'top': 'none', 'nodes': [], 'ss': []}
+    if noclass:
+        return {'outcome': 'ok', 'top': '?:loaded a stream naming a missing class', 'nodes': [], 'ss': []}
     toptok, nodes = project(top, scn, kinds, paths)
     return {'outcome': 'ok', 'top': toptok, 'nodes': nodes, '_log': mine}
 
